@@ -1,0 +1,10 @@
+//go:build go1.20
+// +build go1.20
+
+package cache
+
+// deleteEntry removes the key only if it still holds the given entry,
+// an entry written concurrently under the same key is kept.
+func (c *syncMap) deleteEntry(key, entry interface{}) {
+	c.data.CompareAndDelete(key, entry)
+}
